@@ -65,6 +65,9 @@ def cmd_check(a):
     os.makedirs(datadir)
     env = _env(datadir)
     os.environ.update({k: env[k] for k in ('BCL_DATA_DIR', 'PYTHONHASHSEED')})
+    # initialise the library's data directory once (it copies networks.json / providers.json from the current tree on first
+    # import); concurrent first imports by the job processes would race on those files
+    subprocess.run([sys.executable, '-c', 'import bitcoinlib'], env=env, cwd=VERIF, capture_output=True, timeout=300)
     sys.path.insert(0, VERIF)
     evdir = os.path.join(VERIF, 'evidence')
     os.makedirs(os.path.join(evdir, 'replays'), exist_ok=True)
@@ -155,7 +158,7 @@ def cmd_check(a):
         elif inconclusive:
             code = 2
         if violations:
-            code = 1 if not harness_errors else 3
+            code = 1          # a violation confirmed by concrete replay stands, whatever else went wrong
         # ---- evidence
         tot = lambda k: sum(int(r.get(k) or 0) for r in results.values())
         funcs = sorted(set(f for r in results.values() for f in r.get('functions', [])))
